@@ -38,6 +38,27 @@ Theorem C10_write_history_independent : forall c ixs hist i k dt,
 Proof. exact write_after_history. Qed.
 Print Assumptions C10_write_history_independent.
 
+(* the mass view (by_mass / imass) read after any history -- whether the view was created before or after the
+   writes -- shows exactly the current molar data times MW under the same key classification *)
+Theorem C10_mass_read_history_independent : forall c ixs hist i k,
+  snd (step fixed c (after c ixs hist) (OGetMass i k)) =
+  match nth_error (sixs (after c ixs hist)) i with
+  | Some (IC d) => obs_of_read (read_chem (tb c) (to_mass (mws c) d) k)
+  | Some (IM phs rows) => obs_of_read (read_mat fixed (tb c) (nchem c) phs (map (to_mass (mws c)) rows) k)
+  | None => BErr EOther
+  end.
+Proof. exact mass_read_after_history. Qed.
+Print Assumptions C10_mass_read_history_independent.
+
+(* an indexer gaining a phase (mix_from / copy_like of material in a phase it lacks) changes no cache at all: it
+   continues with the cache of its new phase set, so (by C10_read_history_independent, which covers histories
+   containing these operations on ANY indexer) reads on the other indexers of the old phase set are unaffected *)
+Theorem C10_expand_keeps_caches : forall vr c s i p v,
+  scc (fst (step vr c s (OMixPhase i p v))) = scc s /\ smc (fst (step vr c s (OMixPhase i p v))) = smc s /\
+  scc (fst (step vr c s (OCopyPhase i p v))) = scc s /\ smc (fst (step vr c s (OCopyPhase i p v))) = smc s.
+Proof. exact expand_keeps_caches. Qed.
+Print Assumptions C10_expand_keeps_caches.
+
 (* lookup_total + get_refines, single-phase data: for every valid key (spec_chem is defined: an
    ID/alias/CAS, a group, a tuple or list of them, the ellipsis) and after every history the read
    does not raise and returns exactly the listed entries of the dense data, group entries summed *)
@@ -188,7 +209,7 @@ Definition ex_chems := [mkchem "A_" "A_" [] 16; mkchem "B_" "10-00-1" ["bee"] 32
 Definition ex_cfg : cfg :=
   match compile ex_chems with
   | Ok c0 => fst (cbuild c0 [CAlias "A_" "ay"; CGroup "G" ["B_"; "C_"] (Some [1; 3]) false])
-  | Err _ => mkcfg [] [] [] 0
+  | Err _ => mkcfg [] [] [] [] 0
   end.
 Definition ex_ixs := [IC [1; 2; 4]; IM ["g"; "l"] [[1; 0; 4]; [1 # 2; 2; 0]]].
 
@@ -236,6 +257,20 @@ Proof.
   split; [|vm_compute; reflexivity].
   apply nok_pos. eapply nok_grp; [vm_compute; reflexivity|reflexivity|vm_compute; reflexivity|apply nok_nil].
 Qed.
+
+(* two indexers of one phase set; the first gains 'g' (rows shift), then both are read through cached keys, and
+   the mass view shows mol * MW after a write made after the view was first read *)
+Example C10_expand_mass_nonvacuous :
+  let ixs := [IM ["l"; "s"] [[1; 2; 3]; [10; 20; 30]]; IM ["l"; "s"] [[4; 5; 6]; [40; 50; 60]]] in
+  let h := [OGet 0 (KTup [KStr "l"; KStr "A_"]); OGet 1 (KTup [KStr "s"; KStr "A_"]); OGetMass 1 (KStr "l");
+            OMixPhase 0 "g" [100; 0; 300]; OGet 0 (KTup [KStr "l"; KStr "A_"]); OGet 1 (KTup [KStr "l"; KStr "A_"]);
+            OGet 0 (KTup [KStr "s"; KStr "A_"]); OGet 1 (KTup [KStr "s"; KStr "A_"]); OGet 0 (KTup [KStr "g"; KStr "C_"]);
+            OSet 1 (KStr "l") (DVec [5; 0; 7]); OGetMass 1 (KStr "l")] in
+  snd (run fixed ex_cfg (mkst [] [] ixs) h) =
+  [BVal (VNum 1); BVal (VNum 40); BVal (VVec [64; 160; 48]); BPh ["g"; "l"; "s"] [[100; 0; 300]; [1; 2; 3]; [10; 20; 30]];
+   BVal (VNum 1); BVal (VNum 4); BVal (VNum 10); BVal (VNum 40); BVal (VNum 300);
+   BWr None [[5; 0; 7]; [40; 50; 60]]; BVal (VVec [80; 0; 56])].
+Proof. vm_compute. reflexivity. Qed.
 
 (* the code as first found in /repo violates the same statements (one witness per defect):
    trim_cache raises at the 501st distinct key although the key is valid ... *)
